@@ -2,6 +2,7 @@ package props
 
 import (
 	"fmt"
+	"github.com/atlassian/escalator/pkg/cloudprovider"
 
 	"verif/h"
 	"verif/sim"
@@ -62,6 +63,16 @@ type AnnotationSafety struct{}
 func (AnnotationSafety) Key() string { return "" }
 func (AnnotationSafety) AfterScan(ctx *h.ScanCtx) []h.Violation {
 	var out []h.Violation
+	// a protected node is never handed to the cloud for removal, so it cannot be the node a
+	// not-in-group stop names (and it must not hold back the others by stopping the controller)
+	if ne, ok := ctx.Res.Err.(*cloudprovider.NodeNotInNodeGroup); ok {
+		if g, n := ctx.GroupOfNode(ne.NodeName); n != nil && g != nil {
+			if _, f := h.HasTaint(n, h.ForceTaintKey); !f && n.Annotations[h.NoDeleteKey] != "" {
+				out = append(out, h.Violation{Prop: "C10", Sig: "C10/protected-node-stops-the-controller",
+					Msg: fmt.Sprintf("scan %d: the scan stopped with the not-in-group error for %s, which carries a non-empty no-delete annotation and is never a removal candidate", ctx.Scan, n.Name)})
+			}
+		}
+	}
 	for _, e := range ctx.Entries {
 		var g *h.GroupView
 		var name string
